@@ -166,6 +166,16 @@ CHECKS['C02'] = dict(
          'Engine.run is a recorder; each notification is delivered exactly once.',
     design='DESIGN.md section 2 C02')
 
+CHECKS['C11'] = dict(
+    technique='bounded symbolic execution (z3, own executor) over base-document shape x a single injected fault (kind, position, wrong value); real loader on every path',
+    text='Reduced scope: FlowIR packages only. Every base document of the family (replication / platform override / third stage present or not, '
+         'both platforms) is written to a scratch package and loaded by the real graphFromPackage with validation on, unmodified and with one fault '
+         'of 10 kinds at every applicable position. Whatever loads must be acyclic, uniquely named, reference only existing components and resolve '
+         'every configuration; every faulted document must be rejected with ExperimentInvalidConfigurationError (a 20 s alarm stands for a hang). '
+         'Exhaustive within the family.',
+    note='each path is one concrete document (the solver enumerates shape/fault/position); DOSINI/CWL/DSL front ends and multi-fault documents are outside.',
+    design='DESIGN.md section 2 C11')
+
 NOT_APPLICABLE = {
     'C07': 'round trip through the real file system, PyYAML (C) and Experiment construction: nothing on the path can be made symbolic; the technique would degenerate to example testing',
     'C15': 'quantifies over processes with different hash seeds / directory listing orders, which are not values inside one symbolic execution',
